@@ -1,6 +1,7 @@
 import Hub.Lemmas.Authz
 import Hub.Lemmas.Admission
 import Hub.Props.C07
+import Hub.Props.C16
 /-
 C08 — Admission rules: only valid market actions are accepted.
 
@@ -20,7 +21,7 @@ paid for) ⇒ accepted.
 -/
 namespace Hub.Props.C08
 open Hub.SDK Hub.Model
-open Hub.Generated (Status)
+open Hub.Generated (Status AmountForBytes GetProportionOfCoin Gigabyte)
 
 /-! ## Specification -/
 
@@ -456,22 +457,29 @@ theorem intOverflows_false_of {x : Int} (h0 : 0 ≤ x)
   simp only [decide_eq_false_iff_not, ge_iff_le, Nat.not_le]
   omega
 
-/-- A transfer succeeds when the sender can pay and the receiver's balance stays inside 256 bits. -/
-theorem sendCoins_ok_of {s : State} {f t : Addr} {c : Coin} (hbal : c.amount ≤ balance s f c.denom) (hft : f ≠ t)
+/-- A transfer succeeds when the sender can pay and the receiver's balance stays inside 256 bits
+(sender and receiver may coincide). -/
+theorem sendCoins_ok_of {s : State} {f t : Addr} {c : Coin} (hamt : 0 ≤ c.amount) (hbal : c.amount ≤ balance s f c.denom)
     (h0 : 0 ≤ balance s t c.denom + c.amount)
     (hlt : balance s t c.denom + c.amount < 115792089237316195423570985008687907853269984665640564039457584007913129639936) :
     ∃ s', sendCoins s f t c = .ok s' := by
   unfold sendCoins
   have h1 : (!decide (balance s f c.denom < c.amount)) = true := by simp; omega
-  have h2 : balance (setBalance s f c.denom (balance s f c.denom - c.amount)) t c.denom = balance s t c.denom := by
-    rw [balance_setBalance]; simp [hft]
-  simp only [h1, require_true, ok_bind, h2, SInt.add, intOverflows_false_of h0 hlt]
+  have h2 : intOverflows (balance (setBalance s f c.denom (balance s f c.denom - c.amount)) t c.denom + c.amount) = false := by
+    rw [balance_setBalance]
+    by_cases hft : f = t
+    · subst hft
+      simp only [and_self, if_true]
+      exact intOverflows_false_of (by omega) (by omega)
+    · simp only [hft, false_and, if_false]
+      exact intOverflows_false_of h0 hlt
+  simp only [h1, require_true, ok_bind, SInt.add, h2]
   exact ⟨_, rfl⟩
 
-/-- "Can be paid for": nothing is due, or the sender (not the community-pool account itself) has the
-coin and the pool's balance stays inside 256 bits. -/
+/-- "Can be paid for": nothing is due, or the sender has the coin and the community pool's balance
+stays inside 256 bits. -/
 def CanFundPool (s : State) (frm : Addr) (c : Coin) : Prop :=
-  c.amount = 0 ∨ (c.amount ≤ balance s frm c.denom ∧ frm ≠ distrAddr ∧ 0 ≤ balance s distrAddr c.denom + c.amount ∧
+  c.amount = 0 ∨ (0 ≤ c.amount ∧ c.amount ≤ balance s frm c.denom ∧ 0 ≤ balance s distrAddr c.denom + c.amount ∧
     balance s distrAddr c.denom + c.amount < 115792089237316195423570985008687907853269984665640564039457584007913129639936)
 
 theorem fundCommunityPool_ok_of {s : State} {frm : Addr} {c : Coin} (h : CanFundPool s frm c) :
@@ -505,6 +513,347 @@ theorem nodeRegister_complete (s : State) (frm : TextAddr) (gb hr : Coins) (url 
   apply accept_of_handle hv
   simp only [Msg.handle, nodeRegister, Option.getD_some, hg', hh', hno, Bool.not_false, require_true, ok_bind, h1, setNode, pure_bind']
   exact ⟨_, rfl⟩
+
+/-! ### purchases (the paying messages) -/
+
+local notation "L128" => (340282366920938463463374607431768211456 : Int)
+local notation "L255" => (57896044618658097711785492504343953926634992332820282019728792003956564819968 : Int)
+local notation "L256" => (115792089237316195423570985008687907853269984665640564039457584007913129639936 : Int)
+
+/-- A possibly-zero transfer (the hub's `alias.go` wrappers skip zero coins). -/
+theorem sendCoins_ok_bal {s : State} {f t : Addr} {c : Coin} (hamt : 0 ≤ c.amount) (hbal : c.amount ≤ balance s f c.denom)
+    (h0 : 0 ≤ balance s t c.denom + c.amount) (hlt : balance s t c.denom + c.amount < L256) :
+    ∃ s', sendCoins s f t c = .ok s' ∧
+      ∀ a d, balance s' a d = balance s a d - (if f = a ∧ c.denom = d then c.amount else 0) + (if t = a ∧ c.denom = d then c.amount else 0) := by
+  obtain ⟨s', hs'⟩ := sendCoins_ok_of hamt hbal h0 hlt
+  exact ⟨s', hs', (sendCoins_ok hs').1⟩
+
+theorem sendCoinFromAccountToModule_ok_bal {s : State} {f t : Addr} {c : Coin} (hamt : 0 ≤ c.amount) (hbal : c.amount ≤ balance s f c.denom)
+    (h0 : 0 ≤ balance s t c.denom + c.amount) (hlt : balance s t c.denom + c.amount < L256) :
+    ∃ s', sendCoinFromAccountToModule s f t c = .ok s' ∧
+      ∀ a d, balance s' a d = balance s a d - (if f = a ∧ c.denom = d then c.amount else 0) + (if t = a ∧ c.denom = d then c.amount else 0) := by
+  unfold sendCoinFromAccountToModule
+  split
+  · rename_i hz
+    refine ⟨s, rfl, ?_⟩
+    intro a d; rw [hz]; simp
+  · exact sendCoins_ok_bal hamt hbal h0 hlt
+
+theorem sendCoin_ok_bal {s : State} {f t : Addr} {c : Coin} (hamt : 0 ≤ c.amount) (hbal : c.amount ≤ balance s f c.denom)
+    (h0 : 0 ≤ balance s t c.denom + c.amount) (hlt : balance s t c.denom + c.amount < L256) :
+    ∃ s', sendCoin s f t c = .ok s' ∧
+      ∀ a d, balance s' a d = balance s a d - (if f = a ∧ c.denom = d then c.amount else 0) + (if t = a ∧ c.denom = d then c.amount else 0) := by
+  unfold sendCoin
+  split
+  · rename_i hz
+    refine ⟨s, rfl, ?_⟩
+    intro a d; rw [hz]; simp
+  · exact sendCoins_ok_bal hamt hbal h0 hlt
+
+theorem gigabyte_val : Gigabyte = 1000000000 := by
+  unfold Gigabyte Hub.Generated.Megabyte Hub.Generated.Kilobyte; norm_num
+
+theorem SInt.sub_ok_of {a b : Int} (h0 : 0 ≤ a - b) (h1 : a - b < L256) : SInt.sub a b = .ok (a - b) := by
+  unfold SInt.sub; rw [intOverflows_false_of h0 h1]; rfl
+
+theorem SInt.mul_ok_of {a b : Int} (h0 : 0 ≤ a * b) (h1 : a * b < L256) : SInt.mul a b = .ok (a * b) := by
+  unfold SInt.mul; rw [intOverflows_false_of h0 h1]; rfl
+
+/-- "Can be paid for" (plan purchase): the price is a valid coin below 2^128, the staking share is a
+fraction, the buyer has the price and is not the fee collector (a module account), and the two
+receiving balances are non-negative and below 2^255. -/
+structure PlanPayable (s : State) (buyer : Addr) (p : Plan) (price : Coin) : Prop where
+  denomOK : validDenom price.denom = true
+  amt0 : 0 ≤ price.amount
+  amtLt : price.amount < L128
+  share0 : 0 ≤ s.params.provShare
+  share1 : s.params.provShare ≤ 1000000000000000000
+  funds : price.amount ≤ balance s buyer price.denom
+  notFee : buyer ≠ feeCollectorAddr
+  feeRoom : 0 ≤ balance s feeCollectorAddr price.denom ∧ balance s feeCollectorAddr price.denom < L255
+  provRoom : 0 ≤ balance s p.prov price.denom ∧ balance s p.prov price.denom < L255
+  gbOK : 0 ≤ p.gb ∧ p.gb < L128
+
+theorem planSubscribe_complete (s : State) (frm : TextAddr) (id : Nat) (denom : Denom)
+    (hv : (Msg.planSubscribe frm id denom).validateBasic = .ok ()) (hok : PlanSubscribeOK s id denom)
+    (hpay : ∀ p price, getPlan s id = some p → p.prices.find denom = some price → PlanPayable s frm.bytes p price) :
+    (deliver s (.planSubscribe frm id denom)).2 = .accept := by
+  obtain ⟨p, hp, hact, hq⟩ := hok
+  obtain ⟨price, hprice⟩ := (quotes_iff _ _).mpr hq
+  have P := hpay p price hp hprice
+  have hp' : getPlan (clr s) id = some p := hp
+  have hd : decide (p.status = Status.StatusActive) = true := by simp [hact]
+  -- the staking reward
+  obtain ⟨a, ha⟩ : ∃ a : Nat, price.amount = (a : Int) := ⟨price.amount.toNat, (Int.toNat_of_nonneg P.amt0).symm⟩
+  obtain ⟨sh, hsh⟩ : ∃ sh : Nat, (clr s).params.provShare = (sh : Int) := ⟨s.params.provShare.toNat, (Int.toNat_of_nonneg P.share0).symm⟩
+  have hsh1 : sh ≤ 10 ^ 18 := by
+    have h1 : (sh : Int) ≤ 1000000000000000000 := by rw [← hsh]; exact P.share1
+    have e : (10 : Nat) ^ 18 = 1000000000000000000 := by norm_num
+    rw [e]; omega
+  have ha255 : a < B255 := by have := P.amtLt; omega
+  have hprice_eq : price = ⟨price.denom, (a : Int)⟩ := by cases price; simp only [Coin.mk.injEq, true_and]; exact ha
+  have hrew : GetProportionOfCoin price (clr s).params.provShare = .ok ⟨price.denom, ((C16.shareSpec a sh : Nat) : Int)⟩ := by
+    rw [hsh]; rw [hprice_eq]; exact C16.proportion_exact price.denom a sh P.denomOK ha255 hsh1
+  have hle : C16.shareSpec a sh ≤ a := C16.proportion_le a sh hsh1
+  -- first transfer: the reward to the fee collector
+  have hfee := P.feeRoom
+  obtain ⟨s1, hs1, hb1⟩ := sendCoinFromAccountToModule_ok_bal (s := clr s) (f := frm.bytes) (t := feeCollectorAddr)
+    (c := ⟨price.denom, ((C16.shareSpec a sh : Nat) : Int)⟩)
+    (by show (0 : Int) ≤ ((C16.shareSpec a sh : Nat) : Int); omega)
+    (by show ((C16.shareSpec a sh : Nat) : Int) ≤ balance s frm.bytes price.denom; have := P.funds; omega)
+    (by show 0 ≤ balance s feeCollectorAddr price.denom + ((C16.shareSpec a sh : Nat) : Int); omega)
+    (by show balance s feeCollectorAddr price.denom + ((C16.shareSpec a sh : Nat) : Int) < L256; have := P.amtLt; omega)
+  -- the payment to the provider
+  have hsub : SInt.sub price.amount ((C16.shareSpec a sh : Nat) : Int) = .ok (price.amount - ((C16.shareSpec a sh : Nat) : Int)) :=
+    SInt.sub_ok_of (by omega) (by have := P.amtLt; omega)
+  have hnn : decide (0 ≤ price.amount - ((C16.shareSpec a sh : Nat) : Int)) = true := by simp; omega
+  have hprov := P.provRoom
+  obtain ⟨s2, hs2, _⟩ := sendCoin_ok_bal (s := s1) (f := frm.bytes) (t := p.prov)
+    (c := ⟨price.denom, price.amount - ((C16.shareSpec a sh : Nat) : Int)⟩)
+    (by show (0 : Int) ≤ price.amount - ((C16.shareSpec a sh : Nat) : Int); omega)
+    (by
+      show price.amount - ((C16.shareSpec a sh : Nat) : Int) ≤ balance s1 frm.bytes price.denom
+      rw [hb1]; have := P.funds
+      have e1 : (balance (clr s) frm.bytes price.denom) = balance s frm.bytes price.denom := rfl
+      simp only [P.notFee.symm, false_and, if_false, true_and, if_true, e1]; omega)
+    (by
+      show 0 ≤ balance s1 p.prov price.denom + (price.amount - ((C16.shareSpec a sh : Nat) : Int))
+      rw [hb1]
+      have e1 : (balance (clr s) p.prov price.denom) = balance s p.prov price.denom := rfl
+      have := P.funds
+      by_cases hfp : frm.bytes = p.prov
+      · have e2 : balance s p.prov price.denom = balance s frm.bytes price.denom := by rw [hfp]
+        simp only [hfp, true_and, if_true, e1, e2]
+        split <;> omega
+      · simp only [hfp, false_and, if_false, e1]
+        split <;> omega)
+    (by
+      show balance s1 p.prov price.denom + (price.amount - ((C16.shareSpec a sh : Nat) : Int)) < L256
+      rw [hb1]
+      have e1 : (balance (clr s) p.prov price.denom) = balance s p.prov price.denom := rfl
+      have := P.amtLt
+      have := P.funds
+      by_cases hfp : frm.bytes = p.prov
+      · have e2 : balance s p.prov price.denom = balance s frm.bytes price.denom := by rw [hfp]
+        simp only [hfp, true_and, if_true, e1, e2]
+        split <;> omega
+      · simp only [hfp, false_and, if_false, e1]
+        split <;> omega)
+  have hmul : SInt.mul Gigabyte p.gb = .ok (Gigabyte * p.gb) := by
+    have := P.gbOK
+    apply SInt.mul_ok_of <;> rw [gigabyte_val] <;> omega
+  apply accept_of_handle hv
+  simp only [Msg.handle, planSubscribe, createSubscriptionForPlan, hp', orReject_some, ok_bind, hd, require_true,
+    Plan.price, hprice, hrew, hs1, hsub, requireP, hnn, if_true, pure_bind', hs2, hmul]
+  exact ⟨_, rfl⟩
+
+local notation "L63" => (9223372036854775808 : Int)
+
+
+theorem mem_insertSorted {cs : Coins} {c x : Coin} (h : x ∈ Coins.insertSorted cs c) : x = c ∨ x ∈ cs := by
+  induction cs with
+  | nil => simp [Coins.insertSorted] at h; exact Or.inl h
+  | cons y rest ih =>
+    unfold Coins.insertSorted at h
+    split at h
+    · simp only [List.mem_cons] at h ⊢
+      rcases h with h | h | h
+      · exact Or.inl h
+      · exact Or.inr (Or.inl h)
+      · exact Or.inr (Or.inr h)
+    · simp only [List.mem_cons] at h ⊢
+      rcases h with h | h
+      · exact Or.inr (Or.inl h)
+      · rcases ih h with h | h
+        · exact Or.inl h
+        · exact Or.inr (Or.inr h)
+
+theorem nonneg_addAmt {cs : Coins} (h : Coins.Nonneg cs) (d : Denom) {a : Int} (ha : 0 ≤ a) : Coins.Nonneg (Coins.addAmt cs d a) := by
+  unfold Coins.addAmt
+  cases hf : cs.find? (·.denom = d) with
+  | none =>
+    simp only []
+    split
+    · exact h
+    · intro x hx
+      rcases mem_insertSorted hx with e | e
+      · rw [e]; exact ha
+      · exact h x e
+  | some c =>
+    simp only []
+    split
+    · intro x hx
+      exact h x (List.mem_filter.mp hx).1
+    · intro x hx
+      simp only [List.mem_map] at hx
+      obtain ⟨y, hy, rfl⟩ := hx
+      have := h y hy
+      split
+      · show 0 ≤ y.amount + a; omega
+      · exact this
+
+theorem not_anyNegative_of_nonneg {cs : Coins} (h : Coins.Nonneg cs) : cs.isAnyNegative = false := by
+  unfold Coins.isAnyNegative
+  rw [List.any_eq_false]
+  intro c hc
+  have := h c hc
+  simp; omega
+
+/-- Escrowing a coin succeeds when the buyer has it, holds only
+non-negative deposits and the escrow balance stays inside 256 bits. -/
+theorem addDeposit_ok_of {s : State} {a : Addr} {c : Coin} (h0 : 0 ≤ c.amount) (hbal : c.amount ≤ balance s a c.denom)
+    (hroom0 : 0 ≤ balance s depositAddr c.denom)
+    (hroom : balance s depositAddr c.denom + c.amount < L256)
+    (hdep : ∀ cs, s.deposits.get a = some cs → Coins.Nonneg cs) : ∃ s', addDeposit s a c = .ok s' := by
+  unfold addDeposit
+  split
+  · exact ⟨_, rfl⟩
+  · obtain ⟨s1, hs1⟩ := sendCoins_ok_of (s := s) (f := a) (t := depositAddr) h0 hbal (by omega) hroom
+    have hd1 : s1.deposits = s.deposits := by rw [(sendCoins_ok hs1).2.1]
+    have hnn : Coins.Nonneg ((getDeposit s1 a).getD []) := by
+      unfold getDeposit; rw [hd1]
+      cases hg : s.deposits.get a with
+      | none => exact Coins.nonneg_nil
+      | some cs => exact hdep cs hg
+    have hneg : (!(((getDeposit s1 a).getD []).add c).isAnyNegative) = true := by
+      have : (((getDeposit s1 a).getD []).add c).isAnyNegative = false :=
+        not_anyNegative_of_nonneg (nonneg_addAmt hnn c.denom h0)
+      rw [this]; rfl
+    unfold depositAdd
+    simp only [hs1, ok_bind, hneg, require_true]
+    exact ⟨_, rfl⟩
+
+theorem newCoin_ok_of {d : Denom} {a : Int} (hd : validDenom d = true) (ha : 0 ≤ a) : newCoin d a = .ok ⟨d, a⟩ := by
+  unfold newCoin
+  have : ¬ (a < 0) := by omega
+  simp only [hd, Bool.not_true, Bool.false_eq_true, if_false, this]
+  rfl
+
+/-- "Can be paid for" (node purchase): the quoted price is a valid coin below 2^128, the quantity
+fits an int64, the buyer has price × quantity, holds only non-negative
+deposits, and the escrow balance is non-negative and below 2^255. -/
+structure NodePayable (s : State) (buyer : Addr) (price : Coin) (qty : Int) : Prop where
+  denomOK : validDenom price.denom = true
+  amt0 : 0 ≤ price.amount
+  amtLt : price.amount < L128
+  qty0 : 0 < qty
+  qtyLt : qty < L63
+  funds : price.amount * qty ≤ balance s buyer price.denom
+  room : 0 ≤ balance s depositAddr price.denom ∧ balance s depositAddr price.denom < L255
+  depNonneg : ∀ cs, s.deposits.get buyer = some cs → Coins.Nonneg cs
+
+theorem NodePayable.clr {s : State} {buyer : Addr} {price : Coin} {qty : Int} (P : NodePayable s buyer price qty) :
+    NodePayable (clr s) buyer price qty :=
+  ⟨P.denomOK, P.amt0, P.amtLt, P.qty0, P.qtyLt, P.funds, P.room, P.depNonneg⟩
+
+theorem chargeSpec_gigabytes (p g : Nat) : C16.chargeSpec p (1000000000 * g) = p * g := by
+  unfold C16.chargeSpec
+  have e : p * (1000000000 * g) = 1000000000 * (p * g) := by ring
+  rw [e]
+  generalize p * g = q
+  omega
+
+theorem createNodeSubGB_ok_of {s : State} {acc node : Addr} {n : Node} {gb : Int} {denom : Denom} {price : Coin}
+    (hprice : n.gb.find denom = some price) (P : NodePayable s acc price gb) :
+    ∃ r, createNodeSubGB s acc node n gb denom = .ok r := by
+  obtain ⟨pa, hpa⟩ : ∃ pa : Nat, price.amount = (pa : Int) := ⟨price.amount.toNat, (Int.toNat_of_nonneg P.amt0).symm⟩
+  obtain ⟨g, hg⟩ : ∃ g : Nat, gb = (g : Int) := ⟨gb.toNat, (Int.toNat_of_nonneg (le_of_lt P.qty0)).symm⟩
+  have hpaLt : pa < 340282366920938463463374607431768211456 := by have := P.amtLt; omega
+  have hgLt : g < 9223372036854775808 := by have := P.qtyLt; omega
+  have hmul : SInt.mul Gigabyte gb = .ok (((1000000000 * g : Nat)) : Int) := by
+    have e : Gigabyte * gb = (((1000000000 * g : Nat)) : Int) := by rw [gigabyte_val, hg]; push_cast; ring
+    rw [SInt.mul_ok_of (by rw [e]; omega) (by rw [e]; omega), e]
+  have hprod : pa * (1000000000 * g) < B255 := by
+    calc pa * (1000000000 * g) ≤ 340282366920938463463374607431768211456 * (1000000000 * 9223372036854775808) :=
+          Nat.mul_le_mul (by omega) (by omega)
+      _ < B255 := by norm_num
+  have hafb : AmountForBytes price.amount (((1000000000 * g : Nat)) : Int) = .ok (((pa * g : Nat)) : Int) := by
+    rw [hpa, C16.afb_exact_wide pa (1000000000 * g) hprod, chargeSpec_gigabytes]
+  have hcoin : newCoin price.denom (((pa * g : Nat)) : Int) = .ok ⟨price.denom, (((pa * g : Nat)) : Int)⟩ :=
+    newCoin_ok_of P.denomOK (by omega)
+  have hdue : (((pa * g : Nat)) : Int) = price.amount * gb := by rw [hpa, hg]; push_cast; ring
+  have hlt : (((pa * g : Nat)) : Int) < L255 := by
+    have : pa * g ≤ 340282366920938463463374607431768211456 * 9223372036854775808 := Nat.mul_le_mul (by omega) (by omega)
+    have h2 : (340282366920938463463374607431768211456 * 9223372036854775808 : Nat) < 57896044618658097711785492504343953926634992332820282019728792003956564819968 := by norm_num
+    omega
+  obtain ⟨s1, hs1⟩ := addDeposit_ok_of (s := s) (a := acc) (c := ⟨price.denom, (((pa * g : Nat)) : Int)⟩)
+    (by show (0 : Int) ≤ ((pa * g : Nat) : Int); omega)
+    (by show (((pa * g : Nat)) : Int) ≤ balance s acc price.denom; rw [hdue]; exact P.funds)
+    P.room.1
+    (by show balance s depositAddr price.denom + (((pa * g : Nat)) : Int) < L256; have := P.room.2; omega)
+    P.depNonneg
+  unfold createNodeSubGB
+  simp only [Node.gigabytePrice, hprice, orReject_some, ok_bind, hmul, hafb, hcoin, hs1]
+  exact ⟨_, rfl⟩
+
+theorem createNodeSubHr_ok_of {s : State} {acc node : Addr} {n : Node} {hr : Int} {denom : Denom} {price : Coin}
+    (hprice : n.hr.find denom = some price) (P : NodePayable s acc price hr) :
+    ∃ r, createNodeSubHr s acc node n hr denom = .ok r := by
+  obtain ⟨pa, hpa⟩ : ∃ pa : Nat, price.amount = (pa : Int) := ⟨price.amount.toNat, (Int.toNat_of_nonneg P.amt0).symm⟩
+  obtain ⟨g, hg⟩ : ∃ g : Nat, hr = (g : Int) := ⟨hr.toNat, (Int.toNat_of_nonneg (le_of_lt P.qty0)).symm⟩
+  have hpaLt : pa < 340282366920938463463374607431768211456 := by have := P.amtLt; omega
+  have hgLt : g < 9223372036854775808 := by have := P.qtyLt; omega
+  have hg0 : 0 < g := by have := P.qty0; omega
+  have hdue : price.amount * hr = (((pa * g : Nat)) : Int) := by rw [hpa, hg]; push_cast; ring
+  have hlt : (((pa * g : Nat)) : Int) < L255 := by
+    have : pa * g ≤ 340282366920938463463374607431768211456 * 9223372036854775808 := Nat.mul_le_mul (by omega) (by omega)
+    have h2 : (340282366920938463463374607431768211456 * 9223372036854775808 : Nat) < 57896044618658097711785492504343953926634992332820282019728792003956564819968 := by norm_num
+    omega
+  have hmul : SInt.mul price.amount hr = .ok (((pa * g : Nat)) : Int) := by
+    rw [SInt.mul_ok_of (by rw [hdue]; omega) (by rw [hdue]; omega), hdue]
+  have hcoin : newCoin price.denom (((pa * g : Nat)) : Int) = .ok ⟨price.denom, (((pa * g : Nat)) : Int)⟩ :=
+    newCoin_ok_of P.denomOK (by omega)
+  obtain ⟨s1, hs1⟩ := addDeposit_ok_of (s := s) (a := acc) (c := ⟨price.denom, (((pa * g : Nat)) : Int)⟩)
+    (by show (0 : Int) ≤ ((pa * g : Nat) : Int); omega)
+    (by show (((pa * g : Nat)) : Int) ≤ balance s acc price.denom; rw [← hdue]; exact P.funds)
+    P.room.1
+    (by show balance s depositAddr price.denom + (((pa * g : Nat)) : Int) < L256; have := P.room.2; omega)
+    P.depNonneg
+  have hquo : SInt.quo (((pa * g : Nat)) : Int) hr = .ok (((pa * g / g : Nat)) : Int) := by
+    rw [hg]; exact SInt.quo_nat (pa * g) g hg0
+  have hcoin2 : newCoin price.denom (((pa * g / g : Nat)) : Int) = .ok ⟨price.denom, (((pa * g / g : Nat)) : Int)⟩ :=
+    newCoin_ok_of P.denomOK (Int.natCast_nonneg _)
+  unfold createNodeSubHr
+  simp only [Node.hourlyPrice, hprice, orReject_some, ok_bind, hmul, hcoin, hs1, hquo, hcoin2]
+  exact ⟨_, rfl⟩
+
+/-- **Completeness of the node purchase.** -/
+theorem nodeSubscribe_complete (s : State) (frm node : TextAddr) (gb hr : Int) (denom : Denom)
+    (hv : (Msg.nodeSubscribe frm node gb hr denom).validateBasic = .ok ()) (hok : NodeSubscribeOK s node.bytes gb hr denom)
+    (hpay : ∀ n price, getNode s node.bytes = some n →
+      ((gb ≠ 0 ∧ n.gb.find denom = some price) ∨ (gb = 0 ∧ n.hr.find denom = some price)) →
+      NodePayable s frm.bytes price (if gb ≠ 0 then gb else hr)) :
+    (deliver s (.nodeSubscribe frm node gb hr denom)).2 = .accept := by
+  obtain ⟨n, hn, hact, hcase⟩ := hok
+  have hn' : getNode (clr s) node.bytes = some n := hn
+  have hd : decide (n.status = Status.StatusActive) = true := by simp [hact]
+  apply accept_of_handle hv
+  rcases hcase with ⟨hg0, hh0, hmin, hmax, hq⟩ | ⟨hg0, hh0, hmin, hmax, hq⟩
+  · obtain ⟨price, hprice⟩ := (quotes_iff _ _).mpr hq
+    have hne : gb ≠ 0 := by omega
+    have P := hpay n price hn (Or.inl ⟨hne, hprice⟩)
+    simp only [hne, ne_eq, not_false_eq_true, if_true] at P
+    obtain ⟨r, hr'⟩ := createNodeSubGB_ok_of (s := clr s) (node := node.bytes) hprice P.clr
+    have c1 : (gb == 0 || (decide ((clr s).params.minSubGB ≤ gb) && decide (gb ≤ (clr s).params.maxSubGB))) = true := by
+      simp; right; exact ⟨hmin, hmax⟩
+    have c2 : (hr == 0 || (decide ((clr s).params.minSubHr ≤ hr) && decide (hr ≤ (clr s).params.maxSubHr))) = true := by
+      simp [hh0]
+    simp only [Msg.handle, nodeSubscribe, c1, c2, require_true, ok_bind, createSubscriptionForNode, hn', orReject_some, hd,
+      hne, ne_eq, not_false_eq_true, if_true, hr']
+    exact ⟨_, rfl⟩
+  · obtain ⟨price, hprice⟩ := (quotes_iff _ _).mpr hq
+    have P := hpay n price hn (Or.inr ⟨hg0, hprice⟩)
+    simp only [hg0, ne_eq, not_true_eq_false, if_false] at P
+    obtain ⟨r, hr'⟩ := createNodeSubHr_ok_of (s := clr s) (node := node.bytes) hprice P.clr
+    subst hg0
+    have c1 : ((0 : Int) == 0 || (decide ((clr s).params.minSubGB ≤ 0) && decide (0 ≤ (clr s).params.maxSubGB))) = true := by
+      simp
+    have c2 : (hr == 0 || (decide ((clr s).params.minSubHr ≤ hr) && decide (hr ≤ (clr s).params.maxSubHr))) = true := by
+      simp; right; exact ⟨hmin, hmax⟩
+    simp only [Msg.handle, nodeSubscribe, c1, c2, require_true, ok_bind, createSubscriptionForNode, hn', orReject_some, hd,
+      ne_eq, not_true_eq_false, if_false, hr']
+    exact ⟨_, rfl⟩
+
 
 /-! ## Register only once -/
 
@@ -668,6 +1017,30 @@ example : (deliver s2 (.planLink (prov alice) 1 (node carol))).2 = .reject "node
 example : SessStartOK s2 bob 3 nodeA := sessStart_sound s2 s2_keys (acc bob) (node nodeA) 3 (by decide +kernel)
 example : NodeSubscribeOK s2 nodeA 2 0 "udvpn" := nodeSubscribe_sound s2 (acc carol) (node nodeA) 2 0 "udvpn" (by decide +kernel)
 example : PlanSubscribeOK s2 1 "udvpn" := planSubscribe_sound s2 (acc carol) 1 "udvpn" (by decide +kernel)
+
+/-- The "can be paid for" hypotheses of the purchase completeness theorems are satisfiable:
+carol can buy 2 GB on node A and plan 1 in `s2`; the completeness theorems then give acceptance. -/
+example : NodePayable s2 carol ⟨"udvpn", 5⟩ 2 :=
+  ⟨by decide, by decide, by decide, by decide, by decide, by decide +kernel, by decide +kernel,
+   by intro cs h; have e : s2.deposits.get carol = none := by decide +kernel
+      rw [e] at h; cases h⟩
+
+example : (deliver s2 (.planCreate (prov alice) 5 5 (some [⟨"udvpn", 1⟩]))).2 = .accept :=
+  planCreate_complete s2 (prov alice) 5 5 (some [⟨"udvpn", 1⟩]) (by decide) (by
+    have : (getProvider s2 alice).isSome = true := by decide +kernel
+    exact Option.isSome_iff_exists.mp this)
+
+/-- Remark (see the C07 report): in a *shared* plan subscription the owner cannot end a grantee's
+session with `MsgEnd` (unauthorized), but the owner's `MsgCancel` of the subscription moves that
+session to inactive-pending (the third case of `C07.session_changes_only_by_owner`). -/
+def s3 : State := deliverAll s2
+  [ .subAllocate (acc bob) 3 (acc carol) 500000000,
+    .sessStart (acc carol) 3 (node nodeA) ]
+
+example : (s3.sessions.get 1).map (fun x => (x.addr, x.status)) = some (carol, Status.StatusActive) := by decide +kernel
+example : (deliver s3 (.sessEnd (acc bob) 1 0)).2 = .reject "unauthorized" := by decide +kernel
+example : ((deliver s3 (.subCancel (acc bob) 3)).1.sessions.get 1).map (fun x => (x.addr, x.status)) =
+    some (carol, Status.StatusInactivePending) := by decide +kernel
 
 end Examples
 
